@@ -13,7 +13,7 @@ func init() {
 	register(func() {
 		engine.Register(&engine.Check{
 			ID: "C09", Level: "exploration", Risky: true,
-			Rule: "a contract monitor (balanced and properly nested finish events, exactly one key before every object value, announced non-negative length == number of elements, announced element type == kind of every element, nothing after a finished one-value stream) is placed behind every producer: the three parsers on every accepted document of the C04-C06 languages (Parse and byte-wise Write), Fold of every (Go type, value) of the C12 space (plain visitor and by-reference visitor), and the extended-event adapters for all 29 extended events x contents; a case = (producer, input), non-trivial = the stream contains at least one container",
+			Rule:        "a contract monitor (balanced and properly nested finish events, exactly one key before every object value, announced non-negative length == number of elements, announced element type == kind of every element, nothing after a finished one-value stream) is placed behind every producer: the three parsers on every accepted document of the C04-C06 languages (Parse and byte-wise Write), Fold of every (Go type, value) of the C12 space (plain visitor and by-reference visitor), and the extended-event adapters for all 29 extended events x contents; a case = (producer, input), non-trivial = the stream contains at least one container",
 			Assumptions: []string{"bounds of the underlying languages as in C04-C06 and C12"},
 			Families:    c09Families,
 			Require:     []string{"streams_monitored_parser", "streams_monitored_fold", "streams_monitored_adapter", "announced_lengths_checked"},
